@@ -248,9 +248,11 @@ def r5(ctx):
 
 @rule("R-C03-6", min_instances=2, title="a timeout inside the receive loop changes neither reassembly state nor writes anything")
 def r6(ctx):
+    NOT_YET = (TIMEOUT_EXC, "builtins.BlockingIOError", "ssl.SSLWantReadError")   # "no data yet": a timeout, or a non-blocking transport's would-block
+
     def mr(name, node, run):
         if name == "recv_strict":
-            return [TIMEOUT_EXC]
+            return list(NOT_YET)
         return []
 
     cfg = recv_config(extra_stubs={"_core:WebSocket.send_close": lambda I, run, a, k, n: (run.effect("send_close", ()), NONE)[1],
@@ -262,7 +264,12 @@ def r6(ctx):
         n = 0
         bad = None
         for o in outs:
-            if not (o.kind == "raise" and exc_is(I, o, TIMEOUT_EXC)):
+            inj = [d for d in o.decisions if d.text == "recv_strict raises" and d.choice > 0]
+            if not inj:
+                continue
+            if not (o.kind == "raise" and o.exc_class == NOT_YET[inj[-1].choice - 1]):
+                bad = bad or o
+                n += 1
                 continue
             n += 1
             ws = next(c for c in o.run.heap.values() if getattr(c, "label", "") == "ws")
@@ -274,8 +281,8 @@ def r6(ctx):
         if n == 0:
             raise AnalysisError("no timeout path")
         ctx.ob(f"_core:WebSocket.recv_data_frame:{state}:timeout-leaves-state", bad is None,
-               f"{n} timeout paths leave reassembly state and connection flag untouched and write nothing" if bad is None else
-               "a timeout path modifies the reassembly state / connection flag or writes a frame",
+               f"{n} timeout / would-block paths leave reassembly state and connection flag untouched and write nothing" if bad is None else
+               "a path on which the transport has no data yet (timeout, BlockingIOError, SSLWantReadError) modifies the reassembly state / connection flag, writes a frame or does not reach the caller as that exception",
                ctx.index.loc(ctx.index.func("_core:WebSocket.recv_data_frame").node), {"path": path_text(bad)} if bad else None)
 
 
@@ -495,3 +502,9 @@ def r10(ctx):
 def r11(ctx):
     from .c08 import recv_release
     recv_release(ctx)
+
+
+@rule("R-C03-12", min_instances=6, title="a receive timeout reaches the caller as WebSocketTimeoutException in both lock configurations (the lock stand-in of enable_multithread=False does not swallow it)")
+def r12(ctx):
+    from .c12 import lock_standin_transparent
+    lock_standin_transparent(ctx)
